@@ -49,6 +49,8 @@ def line_text(k, n, a, b):
         return f'.zerountil {a}'
     if k == 'org':
         return f'.org {a}'
+    if k == 'orgl':
+        return f'.org {nm(n)} + {a}'
     if k == 'orgz':
         return f'.org {a} "{nm(n)}"'
     if k == 'zone':
